@@ -9,6 +9,8 @@
 package verifseam
 
 import (
+	"cmp"
+	"fmt"
 	"os"
 	"sort"
 	"time"
@@ -43,17 +45,31 @@ var OrderHook func(site string, sorted []string) []string
 // NowHook, when set, decides the answer of time.Now() at a site.
 var NowHook func(site string) time.Time
 
-// Keys returns the keys of m in the order the seam decides (sorted when pinned).
-func Keys[V any](site string, m map[string]V) []string {
-	keys := make([]string, 0, len(m))
+// Keys returns the keys of m in the order the seam decides (sorted when pinned). Keys of any ordered type are
+// supported; the hook sees them as their printed form.
+func Keys[K cmp.Ordered, V any](site string, m map[K]V) []K {
+	keys := make([]K, 0, len(m))
 	for k := range m {
 		keys = append(keys, k)
 	}
-	sort.Strings(keys)
-	if OrderHook != nil {
-		return OrderHook(site, keys)
+	sort.Slice(keys, func(i, j int) bool { return cmp.Less(keys[i], keys[j]) })
+	if OrderHook == nil {
+		return keys
 	}
-	return keys
+	labels := make([]string, len(keys))
+	byLabel := make(map[string]K, len(keys))
+	for i, k := range keys {
+		labels[i] = fmt.Sprint(k)
+		byLabel[labels[i]] = k
+	}
+	if len(byLabel) != len(keys) {
+		return keys // two keys print alike (NaN): leave this site pinned
+	}
+	out := make([]K, 0, len(keys))
+	for _, l := range OrderHook(site, labels) {
+		out = append(out, byLabel[l])
+	}
+	return out
 }
 
 // Now is time.Now() behind the seam.
